@@ -1030,7 +1030,15 @@ func Throw(_ *VM, ball Term, _ Cont, env *Env) *Promise {
 
 // Catch calls goal. If an exception is thrown and unifies with catcher, it calls recover.
 func Catch(vm *VM, goal, catcher, recover Term, k Cont, env *Env) *Promise {
+	// catch/3 is in effect only while goal is being executed. Once goal has exited, the continuation runs on top of
+	// a frame that, when an error unwinds through it, tells the handler below to let that error pass.
+	var exited bool
 	return catch(func(err error) *Promise {
+		if exited {
+			exited = false
+			return nil
+		}
+
 		e, ok := err.(Exception)
 		if !ok {
 			e = Exception{term: atomError.Apply(NewAtom("system_error"), NewAtom(err.Error()))}
@@ -1043,7 +1051,14 @@ func Catch(vm *VM, goal, catcher, recover Term, k Cont, env *Env) *Promise {
 
 		return Call(vm, recover, k, env)
 	}, func(ctx context.Context) *Promise {
-		return Call(vm, goal, k, env)
+		return Call(vm, goal, func(env *Env) *Promise {
+			return catch(func(error) *Promise {
+				exited = true
+				return nil
+			}, func(context.Context) *Promise {
+				return k(env)
+			})
+		}, env)
 	})
 }
 
